@@ -245,6 +245,7 @@ func commonPreconditions(c *Check) {
 	c.freshDecodeTargets(c.Prop + ".S2")
 	c.loopVarAddresses(c.Prop + ".S3")
 	c.exhaustiveScans(c.Prop + ".S4")
+	c.storedBytesNotAliased(c.Prop + ".S5")
 }
 
 // schemaPredicate: the validator fn accepts a document only if it passed JSON-schema validation (the schema
@@ -405,6 +406,7 @@ func (c *Check) exhaustiveLookup(rule string) {
 		})
 	}
 	inLoop(f.Body, 0)
+	problems = append(problems, c.returnsBeforeScan(f)...)
 	// the scan may live in a helper the lookup delegates to (a method of a registry type)
 	var helpers []*Func
 	for _, g := range c.P.callees(f) {
@@ -417,6 +419,7 @@ func (c *Check) exhaustiveLookup(rule string) {
 		info = g.Pkg.TypesInfo
 		inLoop(g.Body, 0)
 		info = saved
+		problems = append(problems, c.returnsBeforeScan(g)...)
 	}
 	// a reported match is dominated by equality of the element's service name with the argument
 	okMatch := false
@@ -433,6 +436,62 @@ func (c *Check) exhaustiveLookup(rule string) {
 	}
 	c.req(nLoops >= 1 && len(problems) == 0 && okMatch, rule, unitConstruct(f, "exhaustive-lookup"), f.Body.Pos(),
 		"the reserved-service lookup scans every registered module service and reports a match only on name equality"+condStr(len(problems) > 0, ": "+strings.Join(problems, "; ")))
+}
+
+// returnsBeforeScan: in a function that scans a collection, a return placed before the scan must report a match
+// (constant true) or be taken only when the scanned collection is empty — anything else answers without looking
+// at every element.
+func (c *Check) returnsBeforeScan(f *Func) []string {
+	var first ast.Node
+	var ranged ast.Expr
+	ast.Inspect(f.Body, func(x ast.Node) bool {
+		if first != nil {
+			return false
+		}
+		switch s := x.(type) {
+		case *ast.FuncLit:
+			return false
+		case *ast.ForStmt:
+			first = s
+		case *ast.RangeStmt:
+			first, ranged = s, s.X
+		}
+		return first == nil
+	})
+	if first == nil {
+		return nil
+	}
+	var out []string
+	for _, pa := range c.P.PathsOf(f) {
+		if !pa.OK() || pa.RetPos >= first.Pos() || len(pa.Ret) == 0 {
+			continue
+		}
+		if pa.Ret[len(pa.Ret)-1].IsAt("#true") {
+			continue
+		}
+		empty := false
+		if ranged != nil {
+			rs := types.ExprString(ranged)
+			for _, fa := range pa.AllFacts() {
+				t := fa.T
+				if fa.Neg && t.Op == "nonempty" && len(t.A) == 1 && strings.Contains(stripConv(t.A[0]).String(), "."+fieldTail(rs)) {
+					empty = true
+				}
+			}
+		}
+		if !empty {
+			out = append(out, "a return before the scan answers without a match at "+c.pos(pa.RetPos))
+		}
+	}
+	return uniq(out)
+}
+
+// fieldTail: the last selector of a source expression ("k.moduleServices" → "moduleServices").
+func fieldTail(src string) string {
+	if i := strings.LastIndex(src, "."); i >= 0 {
+		src = src[i+1:]
+	}
+	return src
 }
 
 // paramGettersExact: a keeper function that reads one parameter returns exactly the stored value on every
@@ -850,4 +909,92 @@ func (c *Check) paramValidatorsAgree(rule string) {
 		}
 	}
 	c.req(len(reg) >= 5 && n >= 5, rule, "types.Params#validators", token.NoPos, fmt.Sprintf("%d registered (field, validator) pairs; %d applications in Validate checked", len(reg), n))
+}
+
+// storedBytesNotAliased (S5): the store keeps the byte slice it is handed (the cache-wrapped store of a transaction
+// or block holds values by reference until it is flushed), so a value passed to Set must not be written again. On
+// every path, a value stored later is never computed from a value stored earlier through operations that can return
+// their argument's storage (re-slicing, append, a module helper that fills and returns the buffer it was given):
+// re-encoding the next record into that buffer would silently change the record stored before.
+func (c *Check) storedBytesNotAliased(rule string) {
+	nFuncs := 0
+	for _, f := range c.handFuncs("keeper", "service") {
+		had := false
+		seenBad := map[string]bool{}
+		for _, pa := range c.P.PathsOf(f) {
+			type sv struct {
+				val *Term
+				pos token.Pos
+			}
+			var vals []sv
+			for _, ev := range pa.Events {
+				if ev.Kind != EvCall {
+					continue
+				}
+				for _, e := range c.P.effectsOfEvent(f, ev) {
+					if e.Kind != "store" || e.Op != "Set" || len(e.Chain) != 0 || e.Val == nil {
+						continue
+					}
+					had = true
+					v := stripConv(e.Val)
+					for _, prev := range vals {
+						if prev.val.String() == v.String() {
+							continue
+						}
+						if via, ok := c.aliasesThrough(v, prev.val); ok {
+							k := c.pos(prev.pos) + ">" + c.pos(ev.Pos)
+							if !seenBad[k] {
+								seenBad[k] = true
+								c.fail(rule, unitConstruct(f, "stored-buffer-reused:"+via), ev.Pos,
+									"the value stored here is computed through "+via+" from the byte slice stored at "+c.pos(prev.pos)+"; the store keeps that slice, so the earlier record is overwritten in place")
+							}
+						}
+					}
+					vals = append(vals, sv{v, ev.Pos})
+				}
+			}
+		}
+		if had {
+			nFuncs++
+		}
+	}
+	c.req(nFuncs >= 10, rule, "stored-bytes-fresh", token.NoPos, fmt.Sprintf("%d functions call the store's Set directly; on every path no stored value is derived in place from an earlier stored value", nFuncs))
+}
+
+// aliasesThrough: prev occurs inside v below operations that may all return (part of) their argument's storage.
+func (c *Check) aliasesThrough(v, prev *Term) (string, bool) {
+	ps := prev.String()
+	var walk func(t *Term, via string) (string, bool)
+	walk = func(t *Term, via string) (string, bool) {
+		t = stripConv(t)
+		if t.String() == ps {
+			return via, via != ""
+		}
+		may := false
+		switch {
+		case t.Op == "slice" || t.Op == "append" || t.Op == "phi" || t.Op == "res" || t.Op == "out" || t.Op == "...":
+			may = true
+		default:
+			if g := c.P.FuncNamed(t.Op); g != nil && g.isHandWritten() && g.Body != nil {
+				may = true
+			}
+		}
+		if !may {
+			return "", false
+		}
+		nv := via
+		if t.Op != "phi" && t.Op != "res" && t.Op != "..." {
+			if nv != "" {
+				nv += ">"
+			}
+			nv += t.Op
+		}
+		for _, a := range t.A {
+			if s, ok := walk(a, nv); ok {
+				return s, true
+			}
+		}
+		return "", false
+	}
+	return walk(v, "")
 }
